@@ -9,6 +9,7 @@ from . import rules_guard as GU
 from . import rules_serde as SE
 from . import rules_encaps as EN
 from . import rules_cursor as CU
+from . import rules_layout as LA
 
 TRUSTED_BASE = [
     "rustc nightly (type checker, MIR construction at mir-opt-level=0, compile_fail diagnostics)",
@@ -58,6 +59,8 @@ def _run(name, f):
         r = [EN.r_encaps(f)[0]]
     elif name == "cursor":
         r = [CU.r_cursor(f)[0]]
+    elif name == "layout":
+        r = [LA.r_layout(f)[0]]
     else:
         mod = EXTRA.get(name)
         if mod is None:
@@ -132,14 +135,14 @@ SWAPS = r"(swap|row_pair_mut|fill)"
 prop("C01", [sel("encaps"), sel("zero", fn=r"^(TooDee|DrainCol|DropGuard| as Drop)"), sel("zero", fn=r"^TooDee"), sel("shape"), sel("deleg", fn=r"TooDee::(push|pop)")],
      "Shape invariant of the owned array, structural clauses: (R-ENCAPS) the three fields are private to module toodee, no exported signature / impl hands out `&mut Vec`, so only the enumerated shape writers can change (len, num_rows, num_cols); (R-ZERO) num_rows==0 <=> num_cols==0 in every abstract state at every TooDee construction site and at every return of a dimension writer; (R-UNWIND/R-LEAK/R-LEAK-DRAIN/R-HIDE) at every point where control can leave a writer (panic in caller code or a rejected call, leak of the returned drain, return) the triple is untouched, all-zero or in product form; (R-DELEG) push/pop delegate to insert/remove with the dimension as index.",
      declined=["that the length written by insert_row/insert_col/remove_row on the success path equals the new product (loop/pointer arithmetic, DESIGN 2.4)", "cells equal those of a rows-of-cells model (runtime values)"])
-prop("C02", [sel("guard", fn=r"(Index|IndexMut|::col$|::col_mut$| as TooDeeOps(Mut)?::col|get_col_params)"), sel("guard", rules=["R-ARITH"], fn=COLCUR), sel("units", fn=r"(Index|::col|get_unchecked|get_col_params|Col as|ColMut as)")],
-     "Checked access, structural clauses: (R-GUARD) every caller index of Index/IndexMut (row and coordinate forms) and col()/col_mut() on the three receivers is compared strictly with the dimension of its own unit by a guard whose failing edge panics and whose surviving edge dominates every arithmetic use and unchecked access; (R-ARITH) Col/ColMut indexing forms idx*(1+skip) only with checked arithmetic and reaches the cell through a checked slice index (no wrap for huge indices with overflow checks off); (R-UNITS) rows are never compared/multiplied as columns. R-LAYOUT (address shape row*S+col with the object's own stride) is decided by the layout engine when present.",
+prop("C02", [sel("layout", fn=r"(Index|IndexMut|::col$|::col_mut$|get_unchecked|<rule>)"), sel("guard", fn=r"(Index|IndexMut|::col$|::col_mut$| as TooDeeOps(Mut)?::col|get_col_params)"), sel("guard", rules=["R-ARITH"], fn=COLCUR), sel("units", fn=r"(Index|::col|get_unchecked|get_col_params|Col as|ColMut as)")],
+     "Checked access, structural clauses: (R-GUARD) every caller index of Index/IndexMut (row and coordinate forms) and col()/col_mut() on the three receivers is compared strictly with the dimension of its own unit by a guard whose failing edge panics and whose surviving edge dominates every arithmetic use and unchecked access; (R-ARITH) Col/ColMut indexing forms idx*(1+skip) only with checked arithmetic and reaches the cell through a checked slice index (no wrap for huge indices with overflow checks off); (R-UNITS) rows are never compared/multiplied as columns. (R-LAYOUT) every unchecked access of the accessors (Index/IndexMut, col/col_mut, the four get_unchecked*) on the three receivers has, as a canonical polynomial after composing nested slices, the address row*S+col (or the row / column range forms) with S the object's own stride, and the matching lemma's hypotheses (row < R, col < C) are path facts - hence all accessors denote one and the same cell.",
      declined=["the pen-and-paper lemmas L-POS/L-ROW/L-COL* themselves (trusted base)"])
-prop("C03", [sel("zero", fn=VIEWS), sel("units", fn=VIEWS), sel("encaps", fn=r"^TooDeeView")],
-     "Views, structural clauses: (R-ZERO) every TooDeeView/TooDeeViewMut construction site receives dimensions that are both zero or both non-zero - through the computed (not assumed) summary of the shared window validator, or through the zero-rule guard of the slice constructors; (R-UNITS) start/end/stride are used with the right axis; fields of the view types are module-private. R-LAYOUT (L-WINDOW / L-EMPTY / L-PREFIX on the slice range handed to get_unchecked) is decided by the layout engine when present.",
+prop("C03", [sel("layout", fn=r"(::view|::view_mut|from_toodee|TooDeeView(Mut)?::new|<rule>)"), sel("zero", fn=VIEWS), sel("units", fn=VIEWS), sel("encaps", fn=r"^TooDeeView")],
+     "Views, structural clauses: (R-ZERO) every TooDeeView/TooDeeViewMut construction site receives dimensions that are both zero or both non-zero - through the computed (not assumed) summary of the shared window validator, or through the zero-rule guard of the slice constructors; (R-UNITS) start/end/stride are used with the right axis; fields of the view types are module-private. (R-LAYOUT) the six view constructors, evaluated path-wise with the shared window validator inlined, hand get_unchecked a range that matches L-WINDOW (start*stride+start.0 .. + (rows-1)*stride+cols, with sr<er<=R, sc<ec<=C among the path facts) for non-empty windows and the constant empty range L-EMPTY for empty ones, slice the receiver's own backing slice, and store the receiver's own stride; TooDeeView::new / TooDeeViewMut::new slice the prefix num_cols*num_rows under the fact size <= len (L-PREFIX).",
      declined=["cell-by-cell equality of view and parent (runtime values)"])
-prop("C04", [sel("encaps", fn=r"^(TooDeeViewMut|RowsMut|ColMut|<impls>)"), sel("units", fn=r"TooDeeViewMut"), sel("dup"), sel("take", fn=r"^(RowsMut|ColMut)"), sel("cursor", fn=r"^(RowsMut|ColMut)( |:|$)|<rule>")],
-     "Confinement to a mutable view, structural clauses: the view's fields are module-private and RowsMut/ColMut fields crate-private, TooDeeViewMut/RowsMut/ColMut are not Clone (no second writer), the generic algorithm layers (ops/sort/translate/copy) are written against the trait only and use only permutation primitives (R-DUP); the mutable cursors never read a taken slice (R-TAKE). The stride-aware address forms of the view's own writers are decided by R-LAYOUT / R-CURSOR when present.",
+prop("C04", [sel("encaps", fn=r"^(TooDeeViewMut|RowsMut|ColMut|<impls>)"), sel("units", fn=r"TooDeeViewMut"), sel("dup"), sel("take", fn=r"^(RowsMut|ColMut)"), sel("cursor", fn=r"^(RowsMut|ColMut)( |:|$)|<rule>"), sel("layout", fn=r"^TooDeeViewMut|<rule>")],
+     "Confinement to a mutable view, structural clauses: the view's fields are module-private and RowsMut/ColMut fields crate-private, TooDeeViewMut/RowsMut/ColMut are not Clone (no second writer), the generic algorithm layers (ops/sort/translate/copy) are written against the trait only and use only permutation primitives (R-DUP); the mutable cursors never read a taken slice (R-TAKE). (R-LAYOUT) every writer of module view (index_mut x2, get_unchecked*_mut, col_mut, rows_mut, swap_rows, view_mut, from_toodee, new) matches a confined schema with S = the view's stride: L-POS / L-ROW / L-COLV / L-SWAPROWS / L-WINDOW and the literals RowsMut { cols: C, skip_cols: stride - C }, ColMut { skip: stride - 1 }; (R-CURSOR) RowsMut / ColMut then hand out only [k*(C+K), +C) / single cells.",
      declined=["effect inside the rectangle equals the effect on an owned copy (runtime values)"])
 prop("C05", [sel("shape", rules=["R-HIDE", "R-LEAK", "R-LEAK-DRAIN"]), sel("dup"), sel("zstptr")],
      "clauses only: ownership discipline of C05 - (R-HIDE) every bitwise move of elements (ptr::copy/read/write) happens while the Vec length is lowered and every normal path restores it, no restore on an unwind path; (R-DUP) the generic layers only permute; (R-ZSTPTR) progress is never decided by comparing element pointers (zero-sized T); (R-LEAK / R-LEAK-DRAIN) a leaked drain leaves a buffer whose visible part contains no moved-out element.",
@@ -164,8 +167,8 @@ prop("C11", [sel("shape", rules=["R-UNWIND", "R-HIDE"]), sel("zero", fn=r"^(TooD
 prop("C12", [sel("shape", rules=["R-LEAK", "R-LEAK-DRAIN"]), sel("zero", fn=r"^TooDee::remove"), sel("encaps", fn=r"^(DrainCol|<api>)")],
      "Leak safety: (R-LEAK) a function returning a crate type whose destructor writes the shape returns with a consistent triple as if the destructor never ran; (R-LEAK-DRAIN) a returned std Drain over the buffer is a tail drain, so that Vec's leaked length equals the already-updated dimensions' product; (R-ZERO) the dimensions written eagerly obey the zero rule.  Iterators/views perform no shape write and have no shape-writing drop glue (they are not shape writers in the enumeration).",
      declined=["range.start == new_rows*new_cols for the tail drain (arithmetic, DESIGN 2.4)"])
-prop("C13", [sel("guard", fn=SWAPS), sel("units", fn=SWAPS), sel("dup", fn=r"(swap|fill|row_pair)")],
-     "Swap/fill primitives, structural clauses: (R-GUARD) swap, swap_rows, swap_cols, row_pair_mut on the owned array, the mutable view and the provided defaults compare each index strictly with the right dimension (directly, via the ordered-swap idiom, or via nth(..).unwrap()); (R-UNITS) no row/column mix-up; (R-DUP) only swap primitives move elements.  L-SWAPROWS / L-ROWITEM / L-NTH address forms by the layout engine when present.")
+prop("C13", [sel("layout", fn=r"(swap|<rule>)"), sel("guard", fn=SWAPS), sel("units", fn=SWAPS), sel("dup", fn=r"(swap|fill|row_pair)")],
+     "Swap/fill primitives, structural clauses: (R-GUARD) swap, swap_rows, swap_cols, row_pair_mut on the owned array, the mutable view and the provided defaults compare each index strictly with the right dimension (directly, via the ordered-swap idiom, or via nth(..).unwrap()); (R-UNITS) no row/column mix-up; (R-DUP) only swap primitives move elements. (R-LAYOUT) TooDee::swap addresses row*C+col for both cells (L-POS), both swap_rows overrides address [r1*S,+C) and [r2*S,+C) as polynomial identities after composing the nested slices (stride-aware for the view).")
 prop("C14", [sel("guard", fn=r"copy_within"), sel("units", fn=r"(copy_|clone_from)"), sel("dup", fn=r"(copy_|clone_from|CopyOps)")],
      "clauses only: guard/unit clauses of C14 - (R-GUARD) the six coordinates of copy_within are bounded against the dimension of their unit (directly or through the ordered source rectangle); (R-ARITH) no `+` on a caller coordinate before its guard; (R-UNITS) row offsets index rows, column offsets slice rows; (R-DUP) bitwise copies only under T: Copy via slice methods.",
      declined=["overlap direction of copy_within and row-major equality of the result (iteration order vs values)"])
